@@ -106,13 +106,8 @@ func runC17(c *Check) {
 	// ---- the loops
 	agg := p.MustFunc(loopAggregation)
 	var lazy, normal *ssa.Function
-	for _, b := range agg.Blocks {
-		for _, in := range b.Instrs {
-			call, ok := in.(*ssa.Call)
-			if !ok || call.Common().StaticCallee() == nil || !p.InRepo(call.Common().StaticCallee()) {
-				continue
-			}
-			callee := call.Common().StaticCallee()
+	{
+		for _, callee := range calleesAndMethodValues(p, agg) {
 			timers, notify := 0, false
 			// the loop body may sit in a closure of the loop function
 			bodies := append([]*ssa.Function{callee}, callee.AnonFuncs...)
@@ -465,7 +460,65 @@ func runC17(c *Check) {
 		callsTo := func(fn *ssa.Function) NodePred {
 			return func(n *Node) bool { cc := CallCommonOf(n); return cc != nil && cc.StaticCallee() == fn }
 		}
-		if len(on) == 0 || len(off) == 0 {
+		// the loop chosen through a function value ("loop := m.normalLoop; if lazy { loop = m.lazyLoop }; loop(ctx)"):
+		// the value that arrives over the lazy edge must be the lazy loop, every other one the normal loop
+		viaValue, valueOK, valueWhy := false, true, ""
+		if len(on) > 0 && len(g.Select(callsTo(lazy))) == 0 && len(g.Select(callsTo(normal))) == 0 {
+			target := func(v ssa.Value) *ssa.Function {
+				mc, ok := v.(*ssa.MakeClosure)
+				if !ok {
+					return nil
+				}
+				f, _ := mc.Fn.(*ssa.Function)
+				for _, cal := range calleesAndMethodValues(p, agg) {
+					if f != nil && f.Synthetic != "" {
+						for _, b := range f.Blocks {
+							for _, in := range b.Instrs {
+								if call, ok := in.(*ssa.Call); ok && call.Common().StaticCallee() == cal {
+									return cal
+								}
+							}
+						}
+					}
+				}
+				return f
+			}
+			ifi, _ := on[0].In.(*ssa.If)
+			for _, b := range agg.Blocks {
+				for _, in := range b.Instrs {
+					call, ok := in.(*ssa.Call)
+					if !ok {
+						continue
+					}
+					ph, ok := call.Common().Value.(*ssa.Phi)
+					if !ok || ifi == nil {
+						continue
+					}
+					viaValue = true
+					lazyBlk := ifi.Block().Succs[0]
+					for i, e := range ph.Edges {
+						pred := ph.Block().Preds[i]
+						fromLazy := pred == lazyBlk || lazyBlk.Dominates(pred)
+						t := target(e)
+						switch {
+						case t == nil:
+							valueOK, valueWhy = false, "a value that is not one of the loops"
+						case fromLazy && t != lazy:
+							valueOK, valueWhy = false, "over the lazy-mode edge the value is "+fnShort(t)
+						case !fromLazy && t != normal:
+							valueOK, valueWhy = false, "without lazy mode the value is "+fnShort(t)
+						}
+					}
+				}
+			}
+		}
+		if viaValue && len(off) > 0 {
+			if valueOK {
+				c.OK("C17-R8", "AggregationLoop ⟂ mode-follows-configuration", fnName(agg), p.InstrPos(on[0].In), "the loop is chosen through a function value that is the lazy loop exactly on the lazy-mode edge", true)
+			} else {
+				c.Bad("C17-R8", "AggregationLoop ⟂ mode-follows-configuration", fnName(agg), p.InstrPos(on[0].In), "the loop called through a function value does not follow the configured mode: "+valueWhy, nil)
+			}
+		} else if len(on) == 0 || len(off) == 0 {
 			c.Unk("C17-R8", "AggregationLoop ⟂ mode-follows-configuration", fnName(agg), "", "anchor lost: no branch on the configured LazyMode in the aggregation loop")
 		} else if pth := g.PathAvoiding(on, callsTo(normal), nil); pth != nil {
 			c.Bad("C17-R8", "AggregationLoop ⟂ mode-follows-configuration", fnName(agg), p.InstrPos(on[0].In), "with lazy mode configured the normal loop can still be chosen (a further condition decides): blocks are then produced once per block interval instead of on demand and once per idle interval", g.DescribePath(pth))
